@@ -1,0 +1,22 @@
+//go:build verif
+
+package agent
+
+import "github.com/postalsys/muti-metroo/internal/crypto"
+
+// VerifUDPIngressKeys returns, per local (first-hop) stream id, the session key
+// of every destination association of the ingress side (verification harness only).
+func (a *Agent) VerifUDPIngressKeys() map[uint64]*crypto.SessionKey {
+	out := map[uint64]*crypto.SessionKey{}
+	a.udpIngressMu.RLock()
+	defer a.udpIngressMu.RUnlock()
+	for id, l := range a.udpIngressByLocalStream {
+		if l == nil || l.Dest == nil {
+			continue
+		}
+		l.Dest.mu.RLock()
+		out[id] = l.Dest.SessionKey
+		l.Dest.mu.RUnlock()
+	}
+	return out
+}
